@@ -8,7 +8,8 @@
 
 Tree nodes (tuples):
   ('expr', reads)                         g(a, b)
-  ('assign', reads, binds, form)          forms: plain ann walrus tuple chain star import from def class
+  ('assign', reads, binds, form)          forms: plain ann annp walrus tuple tuplesub chain star import from def
+                                          decodef (two decorators) lambdadef (reads in a lambda default) class
   ('with', reads, binds, body)
   ('comp', iter_reads, cond_reads|None, elt_reads, binds, form, body)
                                           x = [g(elt) for _ in it(iter) if c(cond)]; forms: plain ann walrus with
@@ -16,7 +17,7 @@ Tree nodes (tuples):
                                           evaluated in a scope that does not see the class names)
   ('if', reads, body, orelse)
   ('while', reads, body, orelse)
-  ('for', reads, binds, body, orelse)
+  ('for', reads, binds, body, orelse[, tsub_reads])   tsub_reads: reads inside a trailing subscript target
   ('try', body, handlers, orelse, final, rf, rl)   handlers: [(reads, bind|None, body)]
   ('return',)
   ('pass',)
@@ -112,7 +113,8 @@ class Gen(object):
                 if self.allow_return:
                     opts.append(('return',))
                 return self.rng.choice(opts)
-            forms = ['plain'] * 6 + ['ann', 'walrus', 'tuple', 'chain', 'star', 'def', 'class']
+            forms = ['plain'] * 6 + ['ann', 'walrus', 'tuple', 'chain', 'star', 'def', 'class',
+                                     'annp', 'tuplesub', 'lambdadef', 'decodef']
             if self.mods:
                 forms += ['import', 'from']
             if self.dotted:
@@ -139,7 +141,9 @@ class Gen(object):
                     self.pending.append(('expr', [(self.new(), pkg)]))
                 return ('assign', [], [(d, pkg)], 'dotted:' + mod)
             rd = self.reads(0, 2)
-            if form in ('tuple', 'chain', 'star'):
+            if form == 'decodef' and not rd:
+                rd = self.reads(1, 2)
+            if form in ('tuple', 'chain', 'star', 'tuplesub'):
                 b1, b2 = self.bind(), self.bind()
                 while b2[1] == b1[1]:
                     b2 = (b2[0], self.rng.choice(self.names))
@@ -171,8 +175,12 @@ class Gen(object):
             self.loop_depth += 1
             b = self.body(depth + 1, in_finally, no_ret)
             self.loop_depth -= 1
-            return ('for', rd, bs, b,
-                    self.body(depth + 1, in_finally, no_ret, 1, 2) if self.rng.random() < 0.4 else [('pass',)])
+            orelse = self.body(depth + 1, in_finally, no_ret, 1, 2) if self.rng.random() < 0.4 else [('pass',)]
+            tsub = []
+            if self.rng.random() < 0.25:
+                # `for x, g.s[y] in ...`: the subscript is evaluated on every trip after x is bound
+                tsub = [(self.new(), self.rng.choice([o[1] for o in bs] + list(self.names)))]
+            return ('for', rd, bs, b, orelse, tsub)
         if r < 0.86:
             return ('with', self.reads(0, 1), [self.bind()], self.body(depth + 1, in_finally, no_ret))
         if not self.allow_try:
@@ -193,7 +201,11 @@ class Gen(object):
                 nm = (self.new(), 'e%d' % self.hname)
             hb = self.body(depth + 1, in_finally, inner_no_ret, 1, 2)
             if nm and self.rng.random() < 0.7:
-                hb = [('expr', [(self.new(), nm[1])])] + hb
+                if self.rng.random() < 0.25:
+                    # the first statement of the handler is a decorated def whose first decorator reads the name
+                    hb = [('assign', [(self.new(), nm[1])] + self.reads(0, 1), [self.bind()], 'decodef')] + hb
+                else:
+                    hb = [('expr', [(self.new(), nm[1])])] + hb
             handlers.append((tyreads, nm, hb))
         orelse = self.body(depth + 1, in_finally, inner_no_ret, 1, 2) if self.rng.random() < 0.4 else [('pass',)]
         final = self.body(depth + 1, not self.exits, not self.exits, 1, 2) if has_final else [('pass',)]
@@ -273,7 +285,8 @@ def to_coq(n):
         tb = n[4] if len(n) > 4 else []
         return '(While %s %s %s)' % (seq(rd_terms(n[1]) + bd_terms(tb)), body_coq(n[2]), body_coq(n[3]))
     if k == 'for':
-        return seq(rd_terms(n[1]) + ['(For %s %s %s)' % (seq(bd_terms(n[2])), body_coq(n[3]), body_coq(n[4]))])
+        tsub = n[5] if len(n) > 5 else []
+        return seq(rd_terms(n[1]) + ['(For %s %s %s)' % (seq(bd_terms(n[2]) + rd_terms(tsub)), body_coq(n[3]), body_coq(n[4]))])
     if k == 'try':
         hs = 'HNil'
         for tyreads, nm, hb in reversed(n[2]):
@@ -361,6 +374,26 @@ class Renderer(object):
                 self.emit(ind, '%s = %s' % (self.tgt(d, x), val))
             elif form == 'ann':
                 self.emit(ind, '%s: int = %s' % (self.tgt(d, x), val))
+            elif form == 'annp':
+                self.emit(ind, '(%s): int = %s' % (self.tgt(d, x), val))
+            elif form == 'lambdadef':
+                a = self.args(reads)
+                lam = 'lambda n%s: n' % ((', p=(%s,)' % a) if reads else '')
+                self.emit(ind, '%s = %s' % (self.tgt(d, x), ('_b(dict(%s=%d), (%s))' % (x, d, lam)) if ins else lam))
+            elif form == 'decodef':
+                dk = '_dk' if ins else 'g'
+                self.emit(ind, '@%s(%s)' % (dk, self.args(reads[:1])))
+                self.emit(ind, '@%s(%s)' % (dk, self.args(reads[1:])))
+                self.emit(ind, 'def %s(): pass' % self.tgt(d, x))
+                if ins:
+                    self.emit(ind, '_reg(%r, %s, %d)' % (x, x, d))
+            elif form == 'tuplesub':
+                d2, x2 = binds[1]
+                if ins:
+                    self.emit(ind, '%s, _sub[0], %s = _b(dict(%s=%d)%s), 0, _b(dict(%s=%d))' % (
+                        x, x2, x, d, (', ' + self.args(reads)) if reads else '', x2, d2))
+                else:
+                    self.emit(ind, '%s, g.s[0], %s = %s, 0, 1' % (self.tgt(d, x), self.tgt(d2, x2), val))
             elif form == 'walrus':
                 self.emit(ind, '(%s := %s)' % (self.tgt(d, x), val))
             elif form == 'tuple':
@@ -450,12 +483,18 @@ class Renderer(object):
                 self.body(n[3], ind + 1)
         elif k == 'for':
             reads, binds = n[1], n[2]
+            tsub = n[5] if len(n) > 5 else []
             if ins:
                 tg = ', '.join(x for _, x in binds) + (',' if len(binds) > 1 else '')
                 tags = '[' + ', '.join('dict(%s=%d)' % (x, d) for d, x in binds) + ']'
+                if tsub:
+                    tg = ', '.join(x for _, x in binds) + ', _sub[%s]' % self.args(tsub)
+                    tags = tags[:-1] + ', None]'
                 self.emit(ind, 'for %s in _it(%s%s):' % (tg, tags, (', ' + self.args(reads)) if reads else ''))
             else:
                 tg = ', '.join(self.tgt(d, x) for d, x in binds)
+                if tsub:
+                    tg += ', g.s[%s]' % self.args(tsub)
                 self.emit(ind, 'for %s in it(%s):' % (tg, self.args(reads)))
             self.body(n[3], ind + 1)
             if n[4] != [('pass',)]:
@@ -622,6 +661,10 @@ def _raise(nh):
     if 0 < d <= nh:
         raise _E[d - 1]()
 def _ty(cls, *args): return cls
+def _dk(*a): return lambda f: f
+class _Sub(object):
+    def __setitem__(self, k, v): pass
+_sub = _Sub()
 def g(*a): return ()
 '''
 
